@@ -556,7 +556,10 @@ class History:
             return
         self.impure_flagged.add(tag)
         # a difference that an earlier mutation explains (stale memo, node table) is keyed by the taint, otherwise it is the query
-        key = {'kind': 'query-impure', 'query': p['cause'], 'item': item, 'after': p['taint']}
+        # if the first round of the battery agrees and only the second differs, an item of the battery itself is destructive
+        first_ok = all(a == b for a, b in zip(p['hist'], fresh) if '#1=' in a)
+        culprit = '(battery)' if first_ok else p['cause']
+        key = {'kind': 'query-impure', 'query': culprit, 'item': item, 'after': p['taint']}
         self.counterexample(key, 'after the read-only %s the observation %s on the same instance differs from a freshly built circuit'
                             % (p['cause'], item),
                             {'instance': i, 'query': p['cause'], 'arg': p.get('arg'), 'differences': bad[:6], 'netlist': p['text']})
